@@ -117,6 +117,45 @@ whole nested decode, and an allocation counter bounded linearly.  Nesting is bou
 each level's loops by its own remaining bytes, which gives `100 * bs.length` informally; the model
 carries no step or allocation counter.  Allocation is measured by T1 only (harness). -/
 
+/-! ### "yields a message": strings (known finding PB1)
+
+Full statement (FALSE for the tree as it is): every string a successful decode returns is UTF-8,
+  `c ∈ {string, faststr} → c.merge wt bs = .ok (.bs v, r) → validUtf8 v = true`.
+`string::merge` checks; `faststr::merge` — the module pilota-build selects for every proto
+`string` — builds the `FastStr` with `from_bytes_unchecked`. -/
+
+/-- proved part: the `string` module validates. -/
+theorem utf8_checked_partial (wt : WireType) (bs : Bytes) (v : SVal) (r : Bytes)
+    (h : Codec.string.merge wt bs = .ok (v, r)) : ∃ b, v = .bs b ∧ validUtf8 b = true := by
+  unfold Codec.merge at h
+  cases hc : checkWireType Codec.string.wt wt with
+  | ok u =>
+    rw [hc] at h
+    simp only [Codec.mergePayload, Codec.shape] at h
+    cases hm : Codec.mergeBytes bs with
+    | ok p =>
+      obtain ⟨b, r0⟩ := p
+      rw [hm] at h
+      simp only at h
+      split at h
+      · cases h
+      · rename_i hu
+        cases h
+        exact ⟨b, rfl, by simpa using hu⟩
+    | err e => simp [hm] at h
+    | panic e => simp [hm] at h
+    | fuel => simp [hm] at h
+  | err e => simp [hc] at h
+  | panic e => simp [hc] at h
+  | fuel => simp [hc] at h
+
+/-- the witness replayed by the harness (`pbscm faststr len 01ff`): a one-byte string `ff`. -/
+theorem faststr_utf8_counterexample :
+    Codec.faststr.merge .len [0x01, 0xff] = .ok (.bs [0xff], []) ∧ validUtf8 [0xff] = false := by
+  constructor
+  · rfl
+  · decide
+
 /-! non-vacuity -/
 example : slicePre [0x80, 0x01] = true := by decide
 example : decodeVarint [0xff, 0xff, 0xff, 0xff, 0xff, 0xff, 0xff, 0xff, 0xff, 0x02] = .err .invalid := by rfl
